@@ -33,6 +33,15 @@ class C11(Prop):
             for c, t in itertools.permutations(range(n), 2):
                 for via in ("gate", "circuit", "clifford_circuit"):
                     yield {"k": "action", "name": "CNOT", "qubits": [c, t], "n": n, "via": via}
+        # qubit arguments of numpy integer types (signed and unsigned), both CNOT orientations
+        for n in (2, 3, 6):
+            for c, t in itertools.permutations(range(n), 2):
+                if n == 6 and (c + t) % 3:
+                    continue
+                for ty in ("int64", "uint8", "int32", "uint64"):
+                    yield {"k": "action", "name": "CNOT", "qubits": [c, t], "n": n, "via": "gate", "qtype": ty}
+            for q in range(n):
+                yield {"k": "action", "name": ("H", "S", "X")[q % 3], "qubits": [q], "n": n, "via": "circuit", "qtype": "uint8"}
         yield {"k": "ctable"}
         for n in (1, 2, 3):
             for q in range(n):
@@ -58,7 +67,11 @@ class C11(Prop):
                 if name == "CNOT" and qs[0] > qs[1]:
                     name = "CNOTrev"
                 rec = {"op": "gate_action", "name": name, "qs": sorted(q + 1 for q in qs), "n": scn["n"], "via": scn["via"], "raw": qs}
-                g = getattr(C, scn["name"])(*qs)
+                import numpy
+                args = [getattr(numpy, scn["qtype"])(q) for q in qs] if scn.get("qtype") else qs
+                if scn.get("qtype"):
+                    rec["qtype"] = scn["qtype"]
+                g = getattr(C, scn["name"])(*args)
                 obj = be.stabilizer.identity_map(scn["n"])
                 if scn["via"] == "gate":
                     g.forward(obj)
